@@ -40,6 +40,9 @@ Definition check_energy (ens : list (option Qc)) (e_tol n_sigma : Qc) (e : expec
   res_matches (prune_on_energy tc t_en e_tol n_sigma (confs ens [])) e.
 Definition check_rmsd (n : nat) (m : list (list Qc)) (tol : Qc) (e : expect) : bool :=
   res_matches (prune_on_rmsd tc (dmat m) tol (confs_n n)) e.
+(* prune_on_rmsd called with a tolerance ARGUMENT (None / float / other number / Distance with unit factor) *)
+Definition check_rmsd_arg (n : nat) (m : list (list Qc)) (default : Qc) (t : tol_arg) (e : expect) : bool :=
+  res_matches (prune_on_rmsd_arg tc (dmat m) default t (confs_n n)) e.
 Definition check_remove_no_energy (ens : list (option Qc)) (e : expect) : bool :=
   res_matches (remove_no_energy tc t_en (confs ens [])) e.
 Definition check_diff_graph (isos : list bool) (e : expect) : bool :=
@@ -68,6 +71,12 @@ Definition check_select (ens ens2 : list (option Qc)) (isos : list bool) (m : li
 
 (* ---------- Complex: atoms are identified by unique naturals ---------- *)
 Definition pair_eqb (a b : nat * nat) : bool := (fst a =? fst b) && (snd a =? snd b).
+(* edges as a sorted list of (min, max) pairs: the order in which networkx lists edges is not modelled *)
+Definition norm_edge (e : nat * nat) : nat * nat := (Nat.min (fst e) (snd e), Nat.max (fst e) (snd e)).
+Definition pair_leb (a b : nat * nat) : bool := (fst a <? fst b) || ((fst a =? fst b) && (snd a <=? snd b)).
+Fixpoint insert_edge (e : nat * nat) (l : list (nat * nat)) : list (nat * nat) :=
+  match l with [] => [e] | x :: r => if pair_leb e x then e :: l else x :: insert_edge e r end.
+Definition norm_edges (l : list (nat * nat)) : list (nat * nat) := fold_right insert_edge [] (map norm_edge l).
 Definition olist_eqb (a b : option (list nat)) : bool :=
   match a, b with
   | Some x, Some y => list_eqb Nat.eqb x y
@@ -80,4 +89,4 @@ Definition check_complex (ms : list (mol nat)) (atoms : list nat) (charge mult :
   list_eqb Nat.eqb (c_atoms nat ms) atoms &&
   Z.eqb (c_charge nat ms) charge && Z.eqb (c_mult nat ms) mult &&
   list_eqb olist_eqb (map (atom_indexes nat ms) (seq 0 (length idxs))) idxs &&
-  (fst (c_graph nat ms) =? nnodes) && list_eqb pair_eqb (snd (c_graph nat ms)) edges.
+  (fst (c_graph nat ms) =? nnodes) && list_eqb pair_eqb (norm_edges (snd (c_graph nat ms))) (norm_edges edges).
